@@ -9,10 +9,13 @@ import (
 	"fmt"
 	"io"
 	"math/big"
+	"os"
 	"os/exec"
 	"strings"
 	"time"
 )
+
+var slowLog = os.Getenv("GOSYM_SLOW") != ""
 
 type SatResult int
 
@@ -42,6 +45,9 @@ type Solver struct {
 	Errors  []string
 	timeout int // ms
 	log     io.Writer
+	fb      *Solver // one-shot fallback process (reset per query)
+	quickMs int     // incremental attempt budget
+	NOneShot int
 }
 
 func solverArgv(name string, timeoutMs int) []string {
@@ -77,6 +83,10 @@ func NewSolver(tt *TermTable, name string, timeoutMs int) (*Solver, error) {
 }
 
 func (s *Solver) Close() {
+	if s.fb != nil {
+		s.fb.Close()
+		s.fb = nil
+	}
 	if s.cmd != nil {
 		s.in.Close()
 		s.cmd.Process.Kill()
@@ -135,7 +145,37 @@ func (s *Solver) sync(pc []*Term, sb *strings.Builder) {
 // listed terms are evaluated in the model and returned.
 func (s *Solver) Check(pc []*Term, extra *Term, vals []*Term) (SatResult, []*Term) {
 	t0 := time.Now()
-	defer func() { s.Time += time.Since(t0) }()
+	defer func() {
+		d := time.Since(t0)
+		s.Time += d
+		if slowLog && d > 2*time.Second {
+			ex := ""
+			if extra != nil {
+				ex = extra.str(8)
+			}
+			fmt.Fprintf(os.Stderr, "SLOW query %.1fs |pc|=%d extra=%s\n", d.Seconds(), len(pc), ex)
+			if dir := os.Getenv("GOSYM_DUMP"); dir != "" {
+				var sb strings.Builder
+				sb.WriteString("(set-logic ALL)\n")
+				done, ufs := map[int]bool{}, map[string]bool{}
+				for _, t := range pc {
+					s.tt.Emit(t, done, ufs, &sb)
+					fmt.Fprintf(&sb, "(assert %s)\n", t.ref())
+				}
+				if extra != nil {
+					s.tt.Emit(extra, done, ufs, &sb)
+					fmt.Fprintf(&sb, "(assert %s)\n", extra.ref())
+				}
+				sb.WriteString("(check-sat)\n")
+				os.WriteFile(fmt.Sprintf("%s/q%d.smt2", dir, s.Queries), []byte(sb.String()), 0o644)
+			}
+			for i, t := range pc {
+				if i >= len(pc)-6 {
+					fmt.Fprintf(os.Stderr, "    pc[%d]=%s\n", i, t.str(6))
+				}
+			}
+		}
+	}()
 	s.Queries++
 	var sb strings.Builder
 	s.sync(pc, &sb)
@@ -148,6 +188,9 @@ func (s *Solver) Check(pc []*Term, extra *Term, vals []*Term) (SatResult, []*Ter
 	sb.WriteString("(push 1)\n")
 	if extra != nil {
 		fmt.Fprintf(&sb, "(assert %s)\n", extra.ref())
+	}
+	if s.quickMs > 0 {
+		fmt.Fprintf(&sb, "(set-option :timeout %d)\n", s.quickMs)
 	}
 	sb.WriteString("(check-sat)\n")
 	lines := s.roundtrip(sb.String())
@@ -175,6 +218,9 @@ func (s *Solver) Check(pc []*Term, extra *Term, vals []*Term) (SatResult, []*Ter
 		out = s.getValues(vals)
 	}
 	s.roundtrip("(pop 1)\n")
+	if res == Unknown && !bad && s.quickMs > 0 {
+		res, out = s.oneShot(pc, extra, vals)
+	}
 	switch res {
 	case Sat:
 		s.NSat++
@@ -182,6 +228,58 @@ func (s *Solver) Check(pc []*Term, extra *Term, vals []*Term) (SatResult, []*Ter
 		s.NUnsat++
 	default:
 		s.NUnk++
+	}
+	return res, out
+}
+
+// oneShot decides the query in a second solver process that is reset before
+// every query, so that the solver's non-incremental tactic pipeline
+// (bit-blasting + SAT) is used; this is much faster on hard bit-vector/array
+// queries than the incremental core.
+func (s *Solver) oneShot(pc []*Term, extra *Term, vals []*Term) (SatResult, []*Term) {
+	if s.fb == nil {
+		fb, err := NewSolver(s.tt, s.name, s.timeout)
+		if err != nil {
+			s.Errors = append(s.Errors, "fallback solver: "+err.Error())
+			return Unknown, nil
+		}
+		s.fb = fb
+	}
+	s.NOneShot++
+	fb := s.fb
+	var sb strings.Builder
+	sb.WriteString("(reset)\n(set-option :produce-models true)\n(set-logic ALL)\n")
+	fmt.Fprintf(&sb, "(set-option :timeout %d)\n", s.timeout)
+	fb.done, fb.ufs = map[int]bool{}, map[string]bool{}
+	for _, t := range pc {
+		s.tt.Emit(t, fb.done, fb.ufs, &sb)
+		fmt.Fprintf(&sb, "(assert %s)\n", t.ref())
+	}
+	if extra != nil {
+		s.tt.Emit(extra, fb.done, fb.ufs, &sb)
+		fmt.Fprintf(&sb, "(assert %s)\n", extra.ref())
+	}
+	for _, v := range vals {
+		s.tt.Emit(v, fb.done, fb.ufs, &sb)
+	}
+	sb.WriteString("(check-sat)\n")
+	lines := fb.roundtrip(sb.String())
+	res := Unknown
+	for _, l := range lines {
+		l = strings.TrimSpace(l)
+		switch {
+		case l == "sat":
+			res = Sat
+		case l == "unsat":
+			res = Unsat
+		case strings.HasPrefix(l, "(error"):
+			s.Errors = append(s.Errors, l)
+			return Unknown, nil
+		}
+	}
+	var out []*Term
+	if res == Sat && len(vals) > 0 {
+		out = fb.getValues(vals)
 	}
 	return res, out
 }
